@@ -117,6 +117,7 @@ def run(ctx):
     # (C) single rules from the pattern generator
     paths += W.mc_states(ctx, "webstatic", "Routing", "MC_Routing.cfg",
                          overrides=dict(base, Mode="gen", GenLen=ctx.pick(2, 3), PathLen=3,
+                                        PathToks=set(ctx.pick(["s", "a", "1", "pA", "pS"], ["s", "a", "1", "dot", "pA", "pS"])),
                                         ArgNames={"a", "1", "slash", "pct", "empty", "sp", "12"},
                                         ElemToks={"s", "a", "dot", "Gns", "Gany", "Gdig", "Nns", "Nany"}),
                          required_actions=["dispatch", "reverse"], timeout=ctx.pick(900, 1500))
@@ -125,16 +126,17 @@ def run(ctx):
                 violation_sig=lambda r, states: {"arg_has_slash": any(47 in a for a in (states[-1][1]["step"]["args"][2] if states else []))})
     ctx.replay(paths, replayer, nontrivial=nt)
     ctx.cov["exhaustive"] = True
-    sims = ctx.sim_paths("webstatic", "Gen_Routing", "Gen_Routing.cfg", num=ctx.pick(30, 400), depth=9, timeout=ctx.pick(900, 1500))
-    ctx.replay(sims, replayer, label="s2c-sim")
+    if not ctx.quick:      # -simulate enumerates every successor per step (~2.5 s per walk): thorough tier only
+        sims = ctx.sim_paths("webstatic", "Gen_Routing", "Gen_Routing.cfg", num=400, depth=9, timeout=1500)
+        ctx.replay(sims, replayer, label="s2c-sim")
     ctx._phase("mc+s2c", t0)
     t0 = time.time()
-    n = ctx.pick(300, 5000)
-    traces = framework.pool_map(random_trace, [(i + 1, ctx.seed * 1000003 + i, 25) for i in range(n)])
+    n = ctx.pick(200, 5000)
+    traces = framework.pool_map(random_trace, [(i + 1, ctx.seed * 1000003 + i, ctx.pick(20, 25)) for i in range(n)])
     ctx.validate("webstatic", "Trace_Routing", "Trace_Routing.cfg", traces, shards=ctx.pick(2, None), sig_fn=_trace_sig, timeout=ctx.pick(900, 1500))
     ctx._phase("c2s", t0)
     ctx.cov["rule"] = ("cases: (A) ordered lists of <= 2/3 path rules from a pattern menu x paths '/' + <= 3 tokens over {/, a, 1, ., %41, %2F}; "
-                       "(B) lists with host rules and nested routers x 5 Host values; (C) every pattern '/' + <= 2/3 elements x paths; "
+                       "(B) lists with host rules (constructor and add_handlers, with and without default_host) and nested routers x 6 Host values; (C) every pattern '/' + <= 2/3 elements x paths; "
                        "reverse_url for every rule x argument tuples; simulation walks; random recorded applications through HTTP; "
                        "distinct = distinct (rule list, call)")
     ctx.cov["trusted_base"] += ["element -> regex text table and HostName table (harness/webstatic_driver.py, Routing.tla)"]
